@@ -58,3 +58,31 @@ structure Sys.Sound (sys : Sys A S O G W) : Prop where
   invisible_obs : ∀ a s w, sys.invisible w = true → sys.obs (sys.exec a s w).1 = sys.obs s
 
 end Nix.Guarded
+
+namespace Nix.Guarded
+
+variable {A S O G W : Type}
+
+/-- a function with one protected section: `pre; try: body except Exception: <handler writes>; raise` then `post` -/
+structure Fn (G W : Type) where
+  pre : List (Step G W)
+  body : List (Step G W)
+  handler : List W
+  post : List (Step G W)
+  deriving Repr, Inhabited
+
+/-- the clean-up of an `except` clause: its writes in order (a clean-up that raises replaces the exception, the
+call stays refused: only the file it leaves matters here) -/
+def execAll (sys : Sys A S O G W) (a : A) : List W → S → S
+  | [], s => s
+  | w :: r, s => execAll sys a r (sys.exec a s w).1
+
+def runFn (sys : Sys A S O G W) (a : A) (fn : Fn G W) (s : S) : S × Option Err :=
+  match run sys a fn.pre s with
+  | (s1, some e) => (s1, some e)
+  | (s1, none) =>
+    match run sys a fn.body s1 with
+    | (s2, some e) => (execAll sys a fn.handler s2, some e)
+    | (s2, none) => run sys a fn.post s2
+
+end Nix.Guarded
